@@ -26,8 +26,8 @@ fn check_pair(acc: &mut Acc, idx: usize, a: &Shape, b: &Shape, gia: &Geometry<i6
             ("intersects[enum]", exp[0], guard(|| intersects_enum(&a.g, &b.g))),
             ("contains[enum]", exp[1], guard(|| contains_enum(&a.g, &b.g))),
         ];
-        // the f32 instantiation of the same impls (lattice coordinates are exact in f32) on every fourth pair
-        if idx % 4 == 0 {
+        // the f32 instantiation of the same impls (lattice coordinates are exact in f32) on every sixth pair
+        if idx % 6 == 0 {
             let (fa, fb) = (to_f32(&a.g), to_f32(&b.g));
             for (op, e, g) in [
                 ("intersects<f32>", exp[0], guard(|| intersects_f32(&fa, &fb))),
